@@ -3,7 +3,7 @@ families x content path x damage sets), three oracles."""
 import itertools
 import os
 
-from mc import core, e1, e2, fsshim, seams, tf, world
+from mc import core, e1, e2, envrun, fsshim, seams, tf, world
 from mc.ref import bencode, model
 
 REAL_B = e1.REAL_B
@@ -22,6 +22,36 @@ PADDED_V1 = {"own-v1-aligned", "ref-V1-bep47", "ref-V1-bep47x2"}
 # env form 'deep': 24 nested directories with 200-byte names (absolute path of
 # the content > 4800 bytes > PATH_MAX)
 DEEP_NAMES = [f"lv{i:02d}-" + "d" * 195 for i in range(24)]
+
+# process-environment axis (mc/envrun.py): one recheck per child interpreter
+PENV_SIZES = [20000, 40000, 5, 33000]
+PENV_P = 16384
+PENV_FAMS = {"quick": ["own-v1", "own-v2", "own-hybrid"],
+             "thorough": ["own-v1", "own-v1-aligned", "own-v2", "own-hybrid",
+                          "ref-V1", "ref-V1-bep47", "ref-V2",
+                          "ref-HY-notrail"]}
+# intact, damage in / removal of the last file (after the long-named ones)
+PENV_DAMAGES = {"quick": [[], [["flip", 3, 16500]], [["rm", 3, 0]]],
+                "thorough": [[], [["flip", 3, 16500]], [["rm", 3, 0]],
+                             [["trunc", 1, 20000]], [["flip", 1, 0]],
+                             [["rm", 2, 0]], [["flip", 0, 19999]]]}
+# environments in which a name outside ASCII cannot be spelled: they also run
+# on the all-ASCII twin of the world
+PENV_ASCII_ENVS = ("ascii-fs", "ascii-all", "posix-locale")
+PENV_BODY = {
+    "lib": ("import sys\n"
+            "import torrentfile.recheck\n"
+            "c = sys.modules['torrentfile.recheck'].Checker({m!r}, {c!r})\n"
+            "OBS = {{'pct': float(c.results())}}\n"),
+    "cli": ("import sys\n"
+            "import torrentfile.cli\n"
+            "v = sys.modules['torrentfile.cli'].execute("
+            "['recheck', {m!r}, {c!r}])\n"
+            "OBS = {{'pct': float(v)}}\n"),
+}
+# kept Checker objects (library surface), real scale
+KEPT_WORLDS = [("D3", [20000, 40000, 5]), ("D4n", [5, 40000, 0, 33000]),
+               ("D2n", [49157, 70000])]
 
 
 def ref_meta(family, tree, P, B):
@@ -185,6 +215,38 @@ class RecheckCheck:
             "inside, `..` from a sub-directory)",
             "entry points: Checker(metafile, path).results() everywhere; the "
             "CLI `recheck` for intact and removal cases at real scale",
+            "process environment (mc/envrun.py): every member of envrun.ENVS "
+            "(terminal widths, -O, ASCII filesystem encoding / locale, stdout "
+            "closed / full / a file / ascii-only, removed working directory, "
+            "-W error, debug switch, recursion limit, descriptor limit, "
+            "umasks, no HOME, time zone, small io buffer) x one real-scale "
+            "4-file tree (a short name, names wider than a narrow terminal's "
+            "title column with long extensions, one non-ASCII name in a "
+            "sub-directory; its all-ASCII twin under the ASCII locales) x "
+            "{intact, flip in the last file, last file removed} x own v1 / "
+            "v2 / hybrid x library and command line, ONE recheck per child "
+            "interpreter, absolute paths; thorough adds foreign families, "
+            "more damages, the parent as content path and the twin tree in "
+            "every environment",
+            "reading for the environment axis: a number that comes back (or "
+            "a result line that is printed) is judged exactly like anywhere "
+            "else (C04 < 100 on visible damage, C05 == 100 on intact content, "
+            "C16 == reference); a REFUSAL (the recheck raises / the child "
+            "dies and no number is reported) is recorded in the outcome "
+            "histogram and never judged - the statements say what a report "
+            "must be, not that every environment must get one",
+            "kept Checker objects (library surface, real scale, every "
+            "family, 3 trees, content path root and parent): constructed "
+            "while a file was missing / a sub-directory was missing / a file "
+            "was shorter, the payload then completed, then results() or a "
+            "full iter_hashes() pass: judged as intact content; a walk over "
+            "iter_hashes() abandoned after k items (k = 1, up to and "
+            "including the first failing piece, all but one; generator "
+            "closed or still held) on intact and on each singly damaged disk "
+            "(flip / truncate / remove per file), then results() on the same "
+            "object - on the same disk, after the repair, after a damage: "
+            "judged against the reference for the disk at the moment of "
+            "asking",
             "C16: v1 metafiles with padding entries are judged only where the "
             "reference percentage is 0 or 100; the per-piece verdict vector of "
             "iter_hashes() is compared with the model's only when both cut "
@@ -197,14 +259,18 @@ class RecheckCheck:
         self.nontrivial_rule = (
             "a (world, family, disk) state is non-trivial if the disk is "
             "damaged, or if it belongs to an environment form other than "
-            "plain intact content; intact baseline states are the trivial "
-            "ones; counted = distinct non-trivial states")
+            "plain intact content, or to a process environment other than "
+            "`default`, or to a kept-object form; intact baseline states are "
+            "the trivial ones; counted = distinct non-trivial states")
         self.rule = (
             "nested product: scale x P x shape x size vector x metafile family "
             "x content path (root|parent) x damage set; state = distinct "
             "(world, family, damaged disk); transition = one Checker.results() "
             "run of the real code; each compared with the reference recheck "
-            "model (percentage)")
+            "model (percentage); plus environment x tree x damage x family x "
+            "route, one child interpreter per recheck; plus kept-object forms "
+            "(construction-time incompleteness x path x consumer; abandoned "
+            "walk k x held/closed x next disk) x family x tree")
 
     def groups(self, tier, seed):
         quick = tier == "quick"
@@ -397,6 +463,31 @@ class RecheckCheck:
         for fam in ("own-v1", "own-v2", "own-hybrid", "ref-V1-bep47"):
             gs.append({"kind": "iofault", "family": fam, "seed": seed,
                        "tier": tier})
+        # process environment (mc/envrun.py): one recheck per child
+        # interpreter, every member of envrun.ENVS x intact / damaged last
+        # file / removed last file x family x library and command line, on a
+        # tree whose names are wider than a narrow terminal's title column,
+        # have long extensions and (one of them) are not ASCII
+        extra = []
+        for env in envrun.ENVS:
+            shapes = ["D4env"]
+            if env in PENV_ASCII_ENVS or not quick:
+                shapes.append("D4enva")
+            for sh in shapes:
+                for dmg in PENV_DAMAGES[tier]:
+                    extra.append({"kind": "penv", "env": env, "shape": sh,
+                                  "damage": dmg, "fams": PENV_FAMS[tier],
+                                  "paths": ["root"] if quick else
+                                  ["root", "parent"],
+                                  "seed": seed, "tier": tier})
+        # kept Checker objects (library surface): constructed while the
+        # payload was incomplete and asked after it was completed; asked
+        # after a walk over iter_hashes() was abandoned midway
+        for sh, v in KEPT_WORLDS:
+            for fam in families(tier, world.nfiles(sh)):
+                extra.append({"kind": "kept", "shape": sh, "sizes": v,
+                              "family": fam, "seed": seed, "tier": tier})
+        gs[1:1] = extra
         return gs
 
     # ------------------------------------------------------------------
@@ -995,9 +1086,297 @@ class RecheckCheck:
                     set_state(damaged_tree, changed, restore=True)
         return found
 
+    # ------------------------------------------------------------------
+    def run_penv(self, g, res):
+        """Process-environment axis: the recheck runs in a child interpreter
+        under envrun.ENVS[g['env']]; the harness (this process) builds the
+        world, the metafiles and the reference.  A number that comes back is
+        judged by the ordinary oracle; a refusal (exception, death of the
+        child) reports no number and is recorded, never judged."""
+        import re
+        seed, env = g["seed"], g["env"]
+        w = {"scale": "R", "B": REAL_B, "P": PENV_P, "shape": g["shape"],
+             "sizes": PENV_SIZES}
+        fams = list(g["fams"])
+        dmg_set = tuple(tuple(d) for d in g["damage"])
+        found = []
+        with tf.scale(REAL_B):
+            files, parent, root, metas = self.setup_world(w, seed, fams)
+            changed = apply_damage(files, dmg_set)
+            self.write_state(root, files, changed)
+            disk = self.disk_of(files, changed)
+            for fam in fams:
+                mpath, meta = metas[fam]
+                if mpath is None:
+                    found.append((f"{self.id}|{fam}|setup-raised:"
+                                  f"{type(meta).__name__}",
+                                  {"kind": "penv", "group": g, "family": fam,
+                                   "route": "setup"}, str(meta)))
+                    continue
+                want, _v, _t = model.recheck_model(meta, disk, REAL_B)
+                if not dmg_set and abs(want - 100) > 1e-9 and fam not in OWN:
+                    raise core.InfraError("reference metafile does not "
+                                          f"verify its own payload: {fam} {w}")
+                ver = model.meta_version_of(meta[b"info"])
+                for where in g["paths"]:
+                    cpath = root if where == "root" else parent
+                    for route in ("lib", "cli"):
+                        rep = envrun.run(env, PENV_BODY[route].format(
+                            m=mpath, c=cpath))
+                        res.states += 1
+                        res.transitions += 1
+                        res.evals += 1
+                        res.validated += 1
+                        if env != "default" or dmg_set:
+                            res.extra["nontrivial"] += 1
+                        res.extra["child_interpreters"] += 1
+                        obs = rep.get("obs")
+                        # the result line the command printed (stdout a pipe)
+                        self.last_printed = None
+                        if route == "cli" and rep.get("out"):
+                            text = " ".join(
+                                ln.replace(mpath, " ").replace(cpath, " ")
+                                for ln in rep["out"].replace(
+                                    "\r", "\n").split("\n")
+                                if mpath in ln and cpath in ln)
+                            self.last_printed = [float(x) for x in re.findall(
+                                r"(?<![\w.])(\d+(?:\.\d+)?)\s*%", text)]
+                        if rep.get("ok") and isinstance(obs, dict) and \
+                                isinstance(obs.get("pct"), (int, float)):
+                            got = ("pct", float(obs["pct"]))
+                            bad = self.judge(fam, meta, dmg_set, got, want,
+                                             False)
+                            what = "ok" if not bad else bad[0][1]
+                        else:
+                            # a refusal: no number came back.  Only a result
+                            # line that was printed all the same is judged.
+                            exc = rep.get("exc") or (
+                                "died" if not rep.get("report") else "none")
+                            got = ("refused:" + str(exc),
+                                   (rep.get("msg") or rep.get("err") or "")[
+                                       -200:])
+                            bad = []
+                            pr = self.last_printed or []
+                            if dmg_set and want < 100 and \
+                                    any(x >= 100 for x in pr):
+                                bad.append(("C04", "damaged-printed-as-100"))
+                            if not dmg_set and abs(want - 100) < 1e-9 and \
+                                    any(x != 100 for x in pr):
+                                bad.append(("C05", "intact-printed-below-100"))
+                            what = "refused:" + str(exc) if not bad \
+                                else bad[0][1]
+                            res.extra["refusals_recorded_not_judged"] += 1
+                        res.outcomes[f"penv:{env}:{dmg_class(dmg_set)}:"
+                                     f"{what}"] += 1
+                        for prop, prob in bad:
+                            if prop != self.id:
+                                continue
+                            found.append((
+                                f"{prop}|{fam}|v{ver}|{prob}|penv:{env}:"
+                                f"{g['shape']}|{dmg_class(dmg_set)}",
+                                {"kind": "penv", "group": g, "family": fam,
+                                 "route": route, "content": where},
+                                {"reported": got, "reference": want,
+                                 "printed": self.last_printed,
+                                 "stderr_tail": (rep.get("err") or "")[-300:]}))
+            self.last_printed = None
+        return found
+
+    # ------------------------------------------------------------------
+    def run_kept(self, g, res):
+        """Kept Checker objects (library surface), real scale, one family:
+        (a) the object is constructed while the payload is incomplete (a file
+        missing / a sub-directory missing / a file shorter), the payload is
+        completed, then the object is asked; (b) a walk over iter_hashes() is
+        abandoned after k items (generator dropped or still held), then the
+        object is asked - on the same disk, after a repair, after a damage.
+        Every answer is judged by the ordinary oracle for the disk as it is
+        at the moment of asking."""
+        import shutil
+        seed, fam = g["seed"], g["family"]
+        w = {"scale": "R", "B": REAL_B, "P": PENV_P, "shape": g["shape"],
+             "sizes": g["sizes"]}
+        found = []
+
+        def prune(root):
+            for dp, dns, fns in os.walk(root, topdown=False):
+                if dp != root and not os.listdir(dp):
+                    os.rmdir(dp)
+
+        with tf.scale(REAL_B):
+            files, parent, root, metas = self.setup_world(w, seed, [fam])
+            mpath, meta = metas[fam]
+            if mpath is None:
+                return [(f"{self.id}|{fam}|setup-raised:"
+                         f"{type(meta).__name__}",
+                         {"kind": "kept", "group": g, "label": "setup"},
+                         str(meta))]
+            ver = model.meta_version_of(meta[b"info"])
+
+            def set_disk(changed):
+                """Put the payload into the state `changed` describes
+                (everything else intact)."""
+                for i, (rel, orig) in enumerate(files):
+                    pth = os.path.join(root, *rel)
+                    data = changed.get(i, orig)
+                    if data is None:
+                        if os.path.exists(pth):
+                            os.remove(pth)
+                        continue
+                    if os.path.exists(pth) and \
+                            os.path.getsize(pth) == len(data):
+                        with open(pth, "rb") as f:
+                            if f.read() == data:
+                                continue
+                    world.write_file(pth, data)
+
+            def want_for(changed):
+                return model.recheck_model(
+                    meta, self.disk_of(files, changed), REAL_B)[0]
+
+            def ask(c, how):
+                with tf.quiet():
+                    if how == "iter":
+                        for _item in c.iter_hashes():
+                            pass
+                        return float(c._result)
+                    return float(c.results())
+
+            def verdict(label, form, dmg_now, changed_now, got):
+                """Judge one answer against the disk as it is now."""
+                want = want_for(changed_now)
+                self.last_printed = None
+                bad = self.judge(fam, meta, dmg_now, got, want, False)
+                res.states += 1
+                res.extra["nontrivial"] += 1
+                res.evals += 1
+                res.validated += 1
+                res.outcomes[f"kept:{form}:{dmg_class(dmg_now)}:"
+                             f"{'ok' if not bad else bad[0][1]}"] += 1
+                for prop, prob in bad:
+                    if prop != self.id:
+                        continue
+                    found.append((
+                        f"{prop}|{fam}|v{ver}|{prob}|kept:{form}|"
+                        f"{dmg_class(dmg_now)}",
+                        {"kind": "kept", "group": g, "label": label},
+                        {"reported": got, "reference": want}))
+
+            # (a) constructed while the payload was incomplete ------------
+            incomplete = []
+            for i, (rel, data) in enumerate(files):
+                incomplete.append((f"file{i}-missing", "made-while-file-"
+                                   "missing", {i: None}, False))
+                if data:
+                    incomplete.append((f"file{i}-shorter", "made-while-file-"
+                                       "shorter", {i: data[:len(data) // 2]},
+                                       False))
+            for sub in sorted({rel[0] for rel, _ in files if len(rel) > 1}):
+                incomplete.append((
+                    f"subdir-{sub}-missing", "made-while-subdir-missing",
+                    {i: None for i, (rel, _) in enumerate(files)
+                     if len(rel) > 1 and rel[0] == sub}, True))
+            for tag, form, changed, rmdirs in incomplete:
+                for where, cpath in (("root", root), ("parent", parent)):
+                    for how in ("results", "iter"):
+                        label = f"{tag}:{where}:{how}"
+                        set_disk(changed)
+                        if rmdirs:
+                            prune(root)
+                        try:
+                            with tf.quiet():
+                                c = tf.recheck.Checker(mpath, cpath)
+                            set_disk({})
+                            got = ("pct", ask(c, how))
+                        except Exception as e:  # noqa
+                            got = ("raised:" + type(e).__name__, str(e)[:160])
+                        finally:
+                            set_disk({})
+                        res.transitions += 1
+                        verdict(label, form, (), {}, got)
+
+            # (b) a walk over iter_hashes() abandoned midway ----------------
+            dmgs = [()]
+            for i, (rel, data) in enumerate(files):
+                if data:
+                    dmgs.append((("flip", i, len(data) // 2),))
+                    dmgs.append((("rm", i, 0),))
+                    dmgs.append((("trunc", i, len(data) // 2),))
+            first_dmgs = [d for d in dmgs if d][:2] + \
+                [d for d in dmgs if d][-1:]
+            for dmg in dmgs:
+                changed = apply_damage(files, dmg)
+                set_disk(changed)
+                try:
+                    with tf.quiet():
+                        items = list(tf.recheck.Checker(
+                            mpath, root).iter_hashes())
+                except Exception:  # noqa
+                    items = []
+                n = len(items)
+                fb = next((j + 1 for j, it in enumerate(items)
+                           if it[0] != it[1]), None)
+                ks = []
+                for name, k in (("k1", 1), ("first-bad", fb),
+                                ("all-but-one", n - 1)):
+                    if k is not None and 1 <= k < n and \
+                            k not in [x for _, x in ks]:
+                        ks.append((name, k))
+                # what the disk becomes before the object is asked
+                if dmg:
+                    nexts = [("same-disk", dmg, changed),
+                             ("then-repaired", (), {})]
+                else:
+                    nexts = [("same-disk", (), {})] + [
+                        ("then-damaged-" + dmg_class(d), d,
+                         apply_damage(files, d)) for d in first_dmgs]
+                for kname, k in ks:
+                    for hold in ("dropped", "held"):
+                        for nname, ndmg, nchanged in nexts:
+                            label = (f"abandoned:{dmg_class(dmg)}:"
+                                     f"{[list(d) for d in dmg]}:{kname}:"
+                                     f"{hold}:{nname}:"
+                                     f"{[list(d) for d in ndmg]}")
+                            set_disk(changed)
+                            gen = None
+                            try:
+                                with tf.quiet():
+                                    c = tf.recheck.Checker(mpath, root)
+                                    gen = c.iter_hashes()
+                                    for _ in range(k):
+                                        next(gen)
+                                    if hold == "dropped":
+                                        gen.close()
+                                        gen = None
+                                set_disk(nchanged)
+                                got = ("pct", ask(c, "results"))
+                            except Exception as e:  # noqa
+                                got = ("raised:" + type(e).__name__,
+                                       str(e)[:160])
+                            finally:
+                                if gen is not None:
+                                    with tf.quiet():
+                                        gen.close()
+                            res.transitions += 2
+                            verdict(label,
+                                    f"abandoned-{kname}:"
+                                    f"{nname.split('-')[0]}-"
+                                    f"{nname.split('-')[1]}",
+                                    ndmg, nchanged, got)
+            set_disk({})
+            shutil.rmtree(os.path.dirname(parent), ignore_errors=True)
+        return found
+
     def run_group(self, g):
         if g.get("kind") == "iofault":
             return self.run_iofault(g)
+        if g.get("kind") in ("penv", "kept"):
+            res = core.Result()
+            fn = self.run_penv if g["kind"] == "penv" else self.run_kept
+            for sig, case, d in fn(g, res):
+                res.violation(sig, case, d)
+            res.sample({k: v for k, v in g.items() if k != "seed"})
+            return res
         if g.get("kind") == "env":
             res = core.Result()
             for sig, case, d in self.run_env(g, res):
@@ -1092,6 +1471,18 @@ class RecheckCheck:
                     if c["variant"] == case["variant"]
                     and c["family"] == case["family"]
                     and c["damage"] == case["damage"]]
+        if case.get("kind") == "penv":
+            res = core.Result()
+            grp = dict(case["group"], fams=[case["family"]],
+                       paths=[case["content"]])
+            return [{"sig": sg, "detail": d}
+                    for sg, c, d in self.run_penv(grp, res)
+                    if c["route"] == case["route"]]
+        if case.get("kind") == "kept":
+            res = core.Result()
+            return [{"sig": sg, "detail": d}
+                    for sg, c, d in self.run_kept(case["group"], res)
+                    if c["label"] == case["label"]]
         if case.get("kind") == "iofault":
             r = self.run_iofault({"family": case["family"],
                                   "seed": case["seed"], "tier": "quick"})
